@@ -190,6 +190,28 @@ Proof.
   split; [vm_compute; reflexivity|]. split; [vm_compute; split; congruence|]. vm_compute. auto.
 Qed.
 
+(* The two bounds of read_log_exact / read_log_to_the_end are needed (domain of the statements:
+   offsets below 2^63 for ReadToTheEnd, no uint64 wrap-around of start+count): the code compares
+   the start partition with that of MaxInt64 resp. computes start+count-1 in uint64. *)
+Theorem read_to_the_end_above_2_63_refuted :
+  exists (ops : list (put_op N)) start o v,
+    log_get (run_puts ops) false 1 o = Some v /\ start <= o /\
+    read_log c02_last_part_guard (run_puts ops) false 1 start (Z.of_N c02_read_to_end) = [].
+Proof.
+  exists [PutOp false false 1 (2 ^ 63 + 5) 7], (2 ^ 63), (2 ^ 63 + 5), 7.
+  split; [vm_compute; reflexivity|]. split; [vm_compute; congruence|vm_compute; reflexivity].
+Qed.
+
+Theorem read_log_wraparound_refuted :
+  exists (ops : list (put_op N)) start (count : Z) o v,
+    log_get (run_puts ops) false 1 o = Some v /\ start <= o < start + Z.to_N count /\
+    read_log c02_last_part_guard (run_puts ops) false 1 start count = []
+    /\ read_log c02_last_part_guard (run_puts ops) false 1 start (count - 1) <> [].
+Proof.
+  exists [PutOp false false 1 (2 ^ 64 - 2) 7; PutOp false false 1 (2 ^ 64 - 1) 8], (2 ^ 64 - 2), 3%Z, (2 ^ 64 - 1), 8.
+  split; [vm_compute; reflexivity|]. split; [vm_compute; split; congruence|]. split; [vm_compute; reflexivity|vm_compute; congruence].
+Qed.
+
 (* ================= B. event codec ================= *)
 
 (* Reading back a stored event gives its stored form, for every event shape the schema allows
@@ -282,6 +304,16 @@ Theorem error_event_with_unparsable_name_unreadable :
                \/ 65535 < nlen en.
 Proof. exact unparsable_name_unreadable_proved. Qed.
 
+(* The original name is kept as text; as a (package, entity) pair it comes back exactly when the
+   package part has no dot (every name the router parses), and not otherwise (C02-F7b, open: the
+   text a.b.c does not say where the package ends). *)
+Theorem original_name_pair_reads_back :
+  forall pkg ent, (forall x, In x pkg -> x <> 46) -> split_first_dot (qname_text pkg ent) = (pkg, ent).
+Proof. exact split_qname_text. Qed.
+
+Theorem original_name_pair_refuted : exists pkg ent, split_first_dot (qname_text pkg ent) <> (pkg, ent).
+Proof. exact split_qname_text_refuted. Qed.
+
 (* A truncated copy of a stored event is rejected, whatever the schema: every proper prefix of
    every encoding fails to decode. *)
 Theorem truncated_event_rejected :
@@ -345,6 +377,10 @@ Print Assumptions read_log_delivers.
 Print Assumptions read_log_nothing_for_nonpositive_count.
 Print Assumptions read_log_boundary_refuted.
 Print Assumptions read_log_gap_refuted.
+Print Assumptions read_to_the_end_above_2_63_refuted.
+Print Assumptions read_log_wraparound_refuted.
+Print Assumptions original_name_pair_reads_back.
+Print Assumptions original_name_pair_refuted.
 Print Assumptions decode_encode.
 Print Assumptions appended_event_reads_back.
 Print Assumptions reencoding_decoded_event_is_identity.
